@@ -127,27 +127,35 @@ func decodeReach(p *core.Program) map[*ssa.Function]*ssa.Function {
 type fieldStability struct {
 	p       *core.Program
 	writers map[*types.Var]map[*ssa.Function]bool // transitive
+	direct  map[*types.Var][]*ssa.Function
 }
 
 func (s *fieldStability) transWriters(f *types.Var) map[*ssa.Function]bool {
 	if w, ok := s.writers[f]; ok {
 		return w
 	}
+	if s.direct == nil {
+		// one pass over the program: field -> functions that store to it
+		s.direct = map[*types.Var][]*ssa.Function{}
+		for fn := range s.p.AllFuncs() {
+			seen := map[*types.Var]bool{}
+			core.Instrs(fn, func(in ssa.Instruction) {
+				if st, ok := in.(*ssa.Store); ok {
+					if fa, ok := st.Addr.(*ssa.FieldAddr); ok {
+						if fv := core.FieldOfAddr(fa); fv != nil && !seen[fv] {
+							seen[fv] = true
+							s.direct[fv] = append(s.direct[fv], fn)
+						}
+					}
+				}
+			})
+		}
+	}
 	w := map[*ssa.Function]bool{}
 	var q []*ssa.Function
-	for fn := range s.p.AllFuncs() {
-		direct := false
-		core.Instrs(fn, func(in ssa.Instruction) {
-			if st, ok := in.(*ssa.Store); ok {
-				if fa, ok := st.Addr.(*ssa.FieldAddr); ok && core.FieldOfAddr(fa) == f {
-					direct = true
-				}
-			}
-		})
-		if direct {
-			w[fn] = true
-			q = append(q, fn)
-		}
+	for _, fn := range s.direct[f] {
+		w[fn] = true
+		q = append(q, fn)
 	}
 	cg := s.p.CallGraph()
 	for len(q) > 0 {
@@ -221,10 +229,10 @@ type libRow struct {
 // were confirmed safe by reading go-pfcp v0.0.23-0.20231009074152.  Keyed by function and source
 // text of the indexed expression, never by line.
 var libSafeByReading = map[string]libRow{
-	"(*ie.IE).MBRUL|v[0:5]":  {"MBR", "v is the result of i.MBR(), which returns an error for len(i.Payload) < 10 and, for an IE of type MBR, the payload itself"},
-	"(*ie.IE).MBRDL|v[5:10]": {"MBR", "as MBRUL"},
-	"(*ie.IE).GBRUL|v[0:5]":  {"GBR", "v is the result of i.GBR(), which returns an error for len(i.Payload) < 10 and, for an IE of type GBR, the payload itself"},
-	"(*ie.IE).GBRDL|v[5:10]": {"GBR", "as GBRUL"},
+	"(*ie.IE).MBRUL|v[0:5]":                       {"MBR", "v is the result of i.MBR(), which returns an error for len(i.Payload) < 10 and, for an IE of type MBR, the payload itself"},
+	"(*ie.IE).MBRDL|v[5:10]":                      {"MBR", "as MBRUL"},
+	"(*ie.IE).GBRUL|v[0:5]":                       {"GBR", "v is the result of i.GBR(), which returns an error for len(i.Payload) < 10 and, for an IE of type GBR, the payload itself"},
+	"(*ie.IE).GBRDL|v[5:10]":                      {"GBR", "as GBRUL"},
 	"(*ie.IE).OuterHeaderRemovalDescription|v[0]": {"OuterHeaderRemoval", "v is the result of i.OuterHeaderRemoval(), which returns an error for an empty payload and, for an IE of that type, the payload itself"},
 	"(*ie.IE).QFI|i.Payload[2]":                   {"QFI", "the expression sits in the DownlinkDataServiceInformation arm of the accessor's type switch; an IE of type QFI takes the ValueAsUint8 arm (length-checked)"},
 	"ie.ParseMultiIEs|b[i.MarshalLen():]":         {"", "i was just parsed from b: a plain IE has MarshalLen = header + len(Payload) with Payload = b[hdr:hdr+Length] behind the check l >= hdr+Length (or no payload when l == hdr); a grouped IE's children were parsed by this same loop, which consumes exactly the payload; so MarshalLen() <= len(b)"},
@@ -383,53 +391,93 @@ func recvTypeKnown(c *core.Ctx, reach map[*ssa.Function]*ssa.Function, fn *ssa.F
 	return true, ""
 }
 
-// c07Library is rule L2.
-func c07Library(c *core.Ctx) {
+type libVerdict struct {
+	site   libSite
+	name   string
+	proven bool
+	row    *libRow
+	rowOK  bool
+	rowWhy string
+	path   []string
+}
+
+type libResult struct {
+	err      error
+	nfn, nun int
+	verdicts []libVerdict
+}
+
+// libAnalyse runs the L2 analysis once per loaded program (other rule sets import C07's obligations).
+func libAnalyse(c *core.Ctx) *libResult {
 	p := c.P
+	if p.Memo == nil {
+		p.Memo = map[string]any{}
+	}
+	if r, ok := p.Memo["c07.L2"].(*libResult); ok {
+		return r
+	}
+	res := &libResult{}
+	p.Memo["c07.L2"] = res
 	reach := decodeReach(p)
 	sites, nfn, nun, err := libDecodeSites(p, reach)
+	res.err, res.nfn, res.nun = err, nfn, nun
 	if err != nil {
-		c.Anchor("L2", err.Error())
-		return
+		return res
 	}
 	env := newLinEnv(p)
-	c.Extra["L2_library_unproven_sites_total"] = nun
-	c.Extra["L2_decode_scope_functions"] = nfn
-	c.Extra["L2_decode_scope_unproven_sites"] = len(sites)
-	c.Floor("L2", nfn, 120, "go-pfcp decoding functions reachable from the event loop")
+	for _, s := range sites {
+		v := libVerdict{site: s, name: core.FnName(s.fn), path: core.PathTo(reach, s.fn)}
+		if in := core.InstrAt(s.fn, s.pos); in != nil {
+			v.proven, _ = env.ProveIndexSite(in)
+		}
+		if !v.proven {
+			if row, ok := libSafeByReading[v.name+"|"+s.text]; ok {
+				r := row
+				v.row, v.rowOK = &r, true
+				if row.callerType != "" {
+					v.rowOK, v.rowWhy = recvTypeKnown(c, reach, s.fn, row.callerType)
+				}
+			}
+		}
+		res.verdicts = append(res.verdicts, v)
+	}
+	return res
+}
+
+// c07Library is rule L2.
+func c07Library(c *core.Ctx) {
+	res := libAnalyse(c)
+	if res.err != nil {
+		c.Anchor("L2", res.err.Error())
+		return
+	}
+	c.Extra["L2_library_unproven_sites_total"] = res.nun
+	c.Extra["L2_decode_scope_functions"] = res.nfn
+	c.Extra["L2_decode_scope_unproven_sites"] = len(res.verdicts)
+	c.Floor("L2", res.nfn, 120, "go-pfcp decoding functions reachable from the event loop")
 	proven, byTable := 0, 0
 	seen := map[string]bool{}
-	for _, s := range sites {
-		name := core.FnName(s.fn)
+	for _, v := range res.verdicts {
+		s, name := v.site, v.name
 		construct := "lib-index:" + name + ":" + s.text
-		if in := core.InstrAt(s.fn, s.pos); in != nil {
-			if ok, _ := env.ProveIndexSite(in); ok {
-				proven++
-				c.Check("L2", fmt.Sprintf("%s#%d", construct, proven), s.pos, true, "library index "+s.text+" in "+name+": offsets compared with the length on every path (linear-relational engine)")
-				continue
-			}
-		}
-		if row, ok := libSafeByReading[name+"|"+s.text]; ok {
-			okRow, why := true, ""
-			if row.callerType != "" {
-				okRow, why = recvTypeKnown(c, reach, s.fn, row.callerType)
-			}
-			if okRow {
-				byTable++
-				c.Check("L2", construct, s.pos, true, "library index "+s.text+" in "+name+": confirmed by reading ("+row.reason+")")
-				continue
-			}
+		switch {
+		case v.proven:
+			proven++
+			c.Check("L2", fmt.Sprintf("%s#%d", construct, proven), s.pos, true, "library index "+s.text+" in "+name+": offsets compared with the length on every path (linear-relational engine)")
+		case v.row != nil && v.rowOK:
+			byTable++
+			c.Check("L2", construct, s.pos, true, "library index "+s.text+" in "+name+": confirmed by reading ("+v.row.reason+")")
+		case v.row != nil:
 			if !seen[construct] {
 				seen[construct] = true
-				c.Fail("L2", construct, s.pos, "library index "+s.text+" in "+name+" is safe only for an IE of type ie."+row.callerType+": "+why, core.PathTo(reach, s.fn)...)
+				c.Fail("L2", construct, s.pos, "library index "+s.text+" in "+name+" is safe only for an IE of type ie."+v.row.callerType+": "+v.rowWhy, v.path...)
 			}
-			continue
+		default:
+			if !seen[construct] {
+				seen[construct] = true
+				c.Fail("L2", construct, s.pos, "go-pfcp interprets octets of the received datagram here with an index the compiler cannot prove, no comparison with the length dominates it, and it is not in the table of sites confirmed by reading: a datagram can make "+s.text+" fault, and the panic takes the event loop down", v.path...)
+			}
 		}
-		if seen[construct] {
-			continue
-		}
-		seen[construct] = true
-		c.Fail("L2", construct, s.pos, "go-pfcp interprets octets of the received datagram here with an index the compiler cannot prove, no comparison with the length dominates it, and it is not in the table of sites confirmed by reading: a datagram can make "+s.text+" fault, and the panic takes the event loop down", core.PathTo(reach, s.fn)...)
 	}
 	c.Extra["L2_discharged_by_engine"] = proven
 	c.Extra["L2_discharged_by_reading_table"] = byTable
